@@ -95,6 +95,9 @@ func (p *Prog) Named(name string) *types.Named {
 	o := p.Types.Scope().Lookup(name)
 	tn, ok := o.(*types.TypeName)
 	if !ok {
+		if al := p.TypeAlias[name]; al != nil {
+			return al
+		}
 		anchorFail("type %s", name)
 	}
 	n, ok := tn.Type().(*types.Named)
@@ -139,6 +142,9 @@ func (p *Prog) Fields(typ string) []*types.Var {
 func (p *Prog) Global(name string) *ssa.Global {
 	g, ok := p.SPkg.Members[name].(*ssa.Global)
 	if !ok {
+		if al := p.GlobalAlias[name]; al != nil {
+			return al
+		}
 		anchorFail("package var %s", name)
 	}
 	return g
